@@ -98,6 +98,9 @@ func runVictim(e *txh.Env, h txh.History, victim int, models []*txh.Model, plan 
 	return after, out, res
 }
 
+// orphanCensus, when set (C11), is applied to the disk after a failed commit: returns what is left behind.
+var orphanCensus func(r *txh.Reach, h txh.History, victim int) string
+
 // judgeFault applies the C01/C06/C07/C10 oracle after a (possibly) failed commit. It returns a
 // violation description or "".
 func judgeFault(e *txh.Env, h txh.History, victim int, pre, post []*txh.Model, out faultOutcome, res txh.TxnResult, retry bool) string {
@@ -128,6 +131,11 @@ func judgeFault(e *txh.Env, h txh.History, victim int, pre, post []*txh.Model, o
 	r := txh.ReadDisk(e.Dir)
 	if pr := r.AllProblems(); len(pr) > 0 {
 		return fmt.Sprintf("%s, commit error %v: %s", where, out.CommitErr, strings.Join(pr, "; "))
+	}
+	if orphanCensus != nil && !out.Committed {
+		if msg := orphanCensus(r, h, victim); msg != "" {
+			return fmt.Sprintf("%s, commit error %v: after the failed commit and its rollback %s", where, out.CommitErr, msg)
+		}
 	}
 	if !retry || out.Committed || p.End != "commit" || p.Mode != sop.ForWriting {
 		return ""
